@@ -81,6 +81,24 @@ mutual
     | x :: xs => validSel s ft strict parent x && validSels s ft strict parent xs
 end
 
+mutual
+  /-- nesting depth of a selection -/
+  def qselDepth : QSel → Nat
+    | .field _ _ sub => qselsDepth sub + 1
+    | .inline _ sub => qselsDepth sub + 1
+    | .spread _ => 1
+  def qselsDepth : List QSel → Nat
+    | [] => 0
+    | x :: xs => max (qselDepth x) (qselsDepth xs)
+end
+
+/-- an upper bound of the nesting depth of any selection set of the document -/
+def docDepth (d : QDoc) : Nat :=
+  (d.map fun
+    | .op _ _ _ sels => qselsDepth sels
+    | .selset sels => qselsDepth sels
+    | .frag _ _ sels => qselsDepth sels).foldl max 0
+
 /-- response keys of the root selection with spreads and inline fragments expanded -/
 def rootKeys (ft : List (String × String × List QSel)) : Nat → List QSel → List String
   | 0, _ => []
@@ -96,7 +114,7 @@ def rootOf (s : Schema) : OpKind → Option Nat
   | .mutation => s.mutationType
   | .subscription => s.subscriptionType
 
-def validDef (s : Schema) (ft : List (String × String × List QSel)) (strict : Bool) : QDef → Bool
+def validDef (s : Schema) (ft : List (String × String × List QSel)) (strict : Bool) (depth : Nat) : QDef → Bool
   | .selset _ => false                                   -- anonymous operation
   | .op _ none _ _ => false                              -- anonymous operation
   | .op kind (some _) _ sels =>
@@ -104,14 +122,26 @@ def validDef (s : Schema) (ft : List (String × String × List QSel)) (strict : 
     | none => false                                      -- the schema lacks this root type
     | some root =>
       validSels s ft strict (.object root) sels &&
-      (kind != .subscription || (rootKeys ft (ft.length + 64) sels).eraseDups.length == 1)
+      -- each step of `rootKeys` descends one nesting level or enters a fragment not entered before on
+      -- this path, so (#fragments + 1) × (depth + 1) levels are always enough
+      (kind != .subscription || (rootKeys ft ((ft.length + 1) * (depth + 1) + 1) sels).eraseDups.length == 1)
   | .frag _ on sels =>
     match s.findType on with
     | none => false
     | some t => validSels s ft strict t sels && (!t.isAbstract || hasTypename s ft t (ft.length + 1) sels)
 
+def nodupStrings : List String → Bool
+  | [] => true
+  | x :: xs => !xs.contains x && nodupStrings xs
+
+/-- names of the operations / fragments defined by the document -/
+def opNames (d : QDoc) : List String := d.filterMap fun | .op _ (some n) _ _ => some n | _ => none
+def fragNames (d : QDoc) : List String := d.filterMap fun | .frag n _ _ => some n | _ => none
+
 def validDoc (s : Schema) (strict : Bool) (d : QDoc) : Bool :=
-  d.all (validDef s (fragTable d) strict)
+  -- GraphQL §5.2.1.1 / §5.5.1.1: operation names and fragment names are unique within a document
+  nodupStrings (opNames d) && nodupStrings (fragNames d) &&
+  d.all (validDef s (fragTable d) strict (docDepth d))
 
 end Valid
 end GqlVerif
